@@ -55,6 +55,19 @@ type task struct {
 	point  string
 	resume chan resumeMsg
 	s      *Scheduler
+	// request-context cancellation: the context of the current request is cancelled when the task reaches its
+	// cancelAfter-th hook from now
+	cancelAfter int
+	cancelFn    func()
+}
+
+func (t *task) tick() {
+	if t.cancelAfter > 0 {
+		t.cancelAfter--
+		if t.cancelAfter == 0 && t.cancelFn != nil {
+			t.cancelFn()
+		}
+	}
 }
 
 type Scheduler struct {
@@ -105,6 +118,7 @@ func (t *task) send(ev event) bool {
 
 // Yield implements verifhook.Controller.
 func (t *task) Yield(ctx context.Context, point string) {
+	t.tick()
 	if !t.send(event{t, evYield, point}) {
 		select {} // the generation is dead: this goroutine is abandoned where it stands
 	}
@@ -116,6 +130,7 @@ func (t *task) Yield(ctx context.Context, point string) {
 
 // Block implements verifhook.Controller.
 func (t *task) Block(ctx context.Context, point string) {
+	t.tick()
 	t.send(event{t, evBlock, point})
 }
 
